@@ -1,4 +1,138 @@
 import PsiModel.Epochs
+import PsiProofs.Helper.C18_Epochs
+import PsiProofs.Helper.C18_Runs
+import PsiProofs.Helper.C18_Debounce
+import PsiProofs.Helper.C18_Smooth
+/-! C18 — property theorems for the boolean-epoch utilities. -/
 namespace Psi.Epochs
-theorem placeholder : maximalRuns [] = [] := rfl
+
+/-- `util.epochs` (code-faithful model, with its special cases and both boundary fix-ups)
+never raises and returns exactly the maximal runs of `true`, for every boolean array. -/
+theorem epochs_eq_runs : ∀ x : List Bool, epochs x = .ok (maximalRuns x) := by
+  intro x
+  cases x with
+  | nil => rfl
+  | cons b xs =>
+    rw [epochs_eq_core]
+    have hz := runsAux_eq_zip xs 1
+    have hlen : (b :: xs).length = 1 + xs.length := by simp; omega
+    have key := epochsCore_ok (b :: xs).length b (final b xs)
+      (risingIdx 1 b xs) (fallingIdx 1 b xs) (length_rel xs 1 b)
+      (by rw [hlen]; exact risingIdx_bounds xs 1 b)
+      (by rw [hlen]; exact fallingIdx_bounds xs 1 b)
+      (by intro hb; subst hb; exact head_true xs 1)
+      (by intro hb; subst hb; exact head_false xs 1)
+      (fun hf => fun f => last_true xs 1 b f hf)
+      (fun hf => fun r => last_false xs 1 b r hf)
+    simp only [List.head?_cons, tsRising, tsFalling]
+    rw [key, hlen]
+    cases b
+    · simp [maximalRuns, runsAux, hz.1]
+    · simp [maximalRuns, runsAux, hz.2]
+
+example : epochs [true, true, false, true] = .ok [(0, 2), (3, 4)] := rfl
+
+/-! ### What `maximalRuns` is, declaratively -/
+
+/-- every returned pair is a maximal run: `s < e ≤ len`, all samples in `[s, e)` high,
+the sample before `s` low (or `s = 0`), the sample at `e` low (or `e = len`). -/
+theorem maximalRuns_sound : ∀ (x : List Bool) (p : Nat × Nat),
+    p ∈ maximalRuns x → IsMaximalRun x p.1 p.2 := by
+  intro x p hp
+  exact runsAux_sound x x 0 none rfl (Nat.zero_le _) (Or.inl rfl) p hp
+
+/-- the output is sorted and disjoint, consecutive runs separated by at least one sample. -/
+theorem maximalRuns_sorted : ∀ x : List Bool,
+    (maximalRuns x).Pairwise (fun p q => p.2 < q.1) :=
+  fun x => (runsAux_sorted x 0).1
+
+/-- every high sample lies in a returned run. -/
+theorem maximalRuns_complete : ∀ (x : List Bool) (i : Nat), x[i]? = some true →
+    ∃ p ∈ maximalRuns x, p.1 ≤ i ∧ i < p.2 := by
+  intro x i hi
+  simpa [maximalRuns] using (runsAux_complete x 0).1 i hi
+
+/-- membership in `maximalRuns x` is exactly "is a maximal run of `x`". -/
+theorem maximalRuns_mem_iff : ∀ (x : List Bool) (s e : Nat),
+    (s, e) ∈ maximalRuns x ↔ IsMaximalRun x s e := by
+  intro x s e
+  constructor
+  · exact maximalRuns_sound x (s, e)
+  · intro ⟨h1, h2, h3, h4, h5⟩
+    obtain ⟨⟨s', e'⟩, hp, hs1, hs2⟩ := maximalRuns_complete x s (h3 s (Nat.le_refl _) h1)
+    obtain ⟨g1, g2, g3, g4, g5⟩ := maximalRuns_sound x _ hp
+    simp only at hs1 hs2 g1 g2 g3 g4 g5
+    have es : s' = s := by
+      by_cases hlt : s' < s
+      · have := g3 (s - 1) (by omega) (by omega)
+        rcases h4 with h4 | h4
+        · omega
+        · rw [this] at h4; simp at h4
+      · omega
+    subst es
+    have ee : e' = e := by
+      rcases Nat.lt_trichotomy e' e with hlt | heq | hgt
+      · have := h3 e' (by omega) hlt
+        rcases g5 with g5 | g5
+        · omega
+        · rw [this] at g5; simp at g5
+      · exact heq
+      · have := g3 e (by omega) hgt
+        rcases h5 with h5 | h5
+        · omega
+        · rw [this] at h5; simp at h5
+    subst ee
+    exact hp
+
+example : IsMaximalRun [false, true, true, false] 1 3 := by
+  refine ⟨by decide, by decide, ?_, Or.inr rfl, Or.inr rfl⟩
+  intro i h1 h2
+  have : i = 1 ∨ i = 2 := by omega
+  rcases this with h | h <;> subst h <;> rfl
+
+/-! ### smooth_epochs -/
+
+/-- `util.smooth_epochs` (sort each column independently, sweep with `ub := next.ub`) returns the
+sorted disjoint cover (pair-sort, join when overlapping or touching, keep the maximum end) of every
+list of intervals with `lb ≤ ub` — no hypothesis on order, overlap or nesting. -/
+theorem smooth_eq_cover : ∀ I : List (Int × Int),
+    (∀ p ∈ I, p.1 ≤ p.2) → smoothEpochs I = sortedDisjointCover I :=
+  smooth_eq_cover_aux
+
+-- nested and unordered intervals: the column sort pairs (1,4),(2,3),(6,7) as (1,3),(2,4),(6,7)
+example : (∀ p ∈ [((6 : Int), (7 : Int)), (2, 3), (1, 4)], p.1 ≤ p.2) ∧
+    smoothEpochs [(6, 7), (2, 3), (1, 4)] = [(1, 4), (6, 7)] := by
+  refine ⟨by decide, by decide⟩
+
+/-! ### debounce_epochs -/
+
+/-- `util.debounce_epochs` = drop the runs shorter than `d`, then join survivors whose gap is `≤ d`
+(for every run list that is sorted and disjoint, i.e. everything `epochs` returns). The hypothesis
+`0 ≤ d` is not needed by the proof; it is kept because the property only speaks of such limits. -/
+theorem debounce_spec : ∀ (e : List (Int × Int)) (d : Int),
+    SortedDisjoint e → 0 ≤ d → debounceEpochs e d = debounceSpec e d :=
+  fun _ d h _ => debounce_of_colSorted d h.colSorted
+
+/-- the same under the weaker hypothesis that each column is non-decreasing, any `d`. -/
+theorem debounce_spec_colSorted : ∀ (e : List (Int × Int)) (d : Int),
+    ColSorted e → debounceEpochs e d = debounceSpec e d :=
+  fun _ d h => debounce_of_colSorted d h
+
+/-- what `epochs` returns always satisfies the hypothesis of `debounce_spec`. -/
+theorem maximalRuns_sortedDisjoint : ∀ x : List Bool,
+    SortedDisjoint ((maximalRuns x).map (fun p => ((p.1 : Int), (p.2 : Int)))) := by
+  intro x
+  refine ⟨?_, ?_⟩
+  · intro p hp
+    obtain ⟨q, hq, rfl⟩ := List.mem_map.mp hp
+    have := (maximalRuns_sound x q hq).1
+    simp only; omega
+  · refine List.Pairwise.map _ ?_ (maximalRuns_sorted x)
+    intro a b hab
+    simp only; omega
+
+example : SortedDisjoint [(0, 2), (3, 4), (9, 12)] ∧ (0 : Int) ≤ 2 ∧
+    debounceEpochs [(0, 2), (3, 4), (9, 12)] 2 = [(0, 2), (9, 12)] := by
+  refine ⟨⟨by decide, by decide⟩, by decide, by decide⟩
+
 end Psi.Epochs
